@@ -234,39 +234,6 @@ def evaluate(ctx, cases, tag='c09'):
             k += 1
     return out
 
-def explained_by_endsite(c, probs):
-    """Signature of finding C09-endsite (regression of /repo db08c8d): an mRNA_end_NF transcript whose protein ends on a
-    residue that is a cleavage site without look-ahead; the last graph node keeps truncated=True although it ends at a
-    genuine site, so every product that reaches into the last piece is clipped.  Matches iff the ONLY problem is missing
-    obliged peptides and EVERY derivation of every missing peptide (occurrence in a coding transcript's protein, W>F
-    tolerated) lies in such a transcript and ends behind its last inner cleavage site."""
-    if len(probs) != 1 or not probs[0].startswith('obliged peptides missing'):
-        return False
-    w, o = c['world'], c['opts']
-    txs = [(t, G.protein_of(w, g, t)) for g, t in coding(w)]
-    sites = O.call_many([('sites', [o['rule'], o['exc'], P]) for _, P in txs])
-    m = O.call('c09_alt', model_req(c)[1])
-    if isinstance(m, str) or m[0] == 1:
-        return False
-    # recompute the missing set in full (the message lists only a few)
-    r = I.run_cases('c09', [c], jobs=1, tag='c09g')[0]
-    if not isinstance(r, dict) or 'pep' not in r:
-        return False
-    missing = set(O.U(p) for p in m[1]) - set(sq for _, sq in r['pep'])
-    if not missing:
-        return False
-    for q in missing:
-        ders = []
-        for (t, P), st in zip(txs, sites):
-            for i in range(len(P) - len(q) + 1):
-                if all(P[i + j] == q[j] or (P[i + j] == 'W' and q[j] == 'F') for j in range(len(q))):
-                    inner = [x for x in st if x < len(P)]
-                    ok = 'mRNA_end_NF' in t['tags'] and len(P) in st and i + len(q) > (max(inner) if inner else 0)
-                    ders.append(ok)
-        if not ders or not all(ders):
-            return False
-    return True
-
 def shrink(ctx, case):
     cur = case
     for _round in range(3):
@@ -382,14 +349,8 @@ def run(ctx):
     v = []
     for r in results:
         if r['probs']:
-            d = {'what': 'C09: ' + '; '.join(r['probs'])[:380] + ' | opts=' + json.dumps(r['case']['opts'])[:160],
-                 'replay_obj': {'kind': 'case', 'case': r['case'], 'problems': r['probs']}, 'no_input': False}
-            try:
-                if explained_by_endsite(r['case'], r['probs']):
-                    d['finding'] = 'C09-endsite'
-            except Exception:
-                pass
-            v.append(d)
+            v.append({'what': 'C09: ' + '; '.join(r['probs'])[:380] + ' | opts=' + json.dumps(r['case']['opts'])[:160],
+                      'replay_obj': {'kind': 'case', 'case': r['case'], 'problems': r['probs']}, 'no_input': False})
     for c, a, b in tbad[:5]:
         v.append({'what': 'C09 node-level translational_modification: impl %s vs model %s on %s' % (str(a)[:120], str(b)[:120], json.dumps(c)),
                   'replay_obj': {'kind': 'tmod', 'case': c, 'impl': a, 'model': b}, 'no_input': False})
@@ -418,8 +379,5 @@ def replay(ctx, obj):
     out = []
     for r in rs:
         if r['probs']:
-            d = {'what': 'C09 replay: ' + '; '.join(r['probs'])[:400], 'replay_obj': obj, 'no_input': False}
-            if explained_by_endsite(r['case'], r['probs']):
-                d['finding'] = 'C09-endsite'
-            out.append(d)
+            out.append({'what': 'C09 replay: ' + '; '.join(r['probs'])[:400], 'replay_obj': obj, 'no_input': False})
     return dict(violations=out)
